@@ -15,6 +15,13 @@ import (
 
 var sha1Memo = map[string]array{}
 
+type sha1Call struct {
+	in  []value
+	out array
+}
+
+var sha1Seen []sha1Call
+
 func init() {
 	externals["crypto/rand.Read"] = func(fr *frame, a []value) value {
 		buf := a[0].([]value)
@@ -56,8 +63,28 @@ func init() {
 		for i := range r {
 			r[i] = eng.fresh("env_sha1", types.Uint8)
 		}
+		// environment assumption: no collisions - equal digests imply equal inputs
+		for _, prev := range sha1Seen {
+			if IntMode {
+				break // (bit-vector harnesses only)
+			}
+			outEq := tTrue
+			for i := range r {
+				outEq = And(outEq, BVCmp("=", termOf(r[i]), termOf(prev.out[i])))
+			}
+			inEq := tFalse
+			if len(prev.in) == len(data) {
+				inEq = tTrue
+				for i := range data {
+					inEq = And(inEq, BVCmp("=", termOf(data[i]), termOf(prev.in[i])))
+				}
+			}
+			eng.pc = append(eng.pc, Or(Not(outEq), inEq))
+		}
+		sha1Seen = append(sha1Seen, sha1Call{in: append([]value{}, data...), out: r})
+		nseen := len(sha1Seen)
 		sha1Memo[k] = r
-		journalFn(func() { delete(sha1Memo, k) })
+		journalFn(func() { delete(sha1Memo, k); sha1Seen = sha1Seen[:nseen-1] })
 		return append(array{}, r...)
 	}
 	externals["(*golang.org/x/time/rate.Limiter).Wait"] = func(fr *frame, a []value) value { return iface{} }
